@@ -57,10 +57,9 @@ static void mk(SPxLPBase<R>& lp, R* vec, int* rowexp, int* colexp, int n)
    lp._isScaled = true; lp.nr = n; lp.nc = n;
    lp.LPColSetBase<R>::scaleExp.data = colexp; lp.LPColSetBase<R>::scaleExp.thesize = n;
    lp.LPRowSetBase<R>::scaleExp.data = rowexp; lp.LPRowSetBase<R>::scaleExp.thesize = n;
-   lp.low.val = vec; lp.low.dimen = n; lp.up.val = vec; lp.up.dimen = n;
-   lp.LPColSetBase<R>::object.val = vec; lp.LPColSetBase<R>::object.dimen = n;
-   lp.left.val = vec; lp.left.dimen = n; lp.right.val = vec; lp.right.dimen = n;
-   lp.LPRowSetBase<R>::object.val = vec; lp.LPRowSetBase<R>::object.dimen = n;
+   lp.bind();
+   lp.sh.low.val = vec; lp.sh.low.dimen = n; lp.sh.up.val = vec; lp.sh.up.dimen = n; lp.sh.obj.val = vec; lp.sh.obj.dimen = n;
+   lp.sh.left.val = vec; lp.sh.left.dimen = n; lp.sh.right.val = vec; lp.sh.right.dimen = n; lp.sh.robj.val = vec; lp.sh.robj.dimen = n;
 }
 
 /* which: selects the function; the LP vector the getters read is `vec` for all of them */
